@@ -54,11 +54,11 @@ def suites(tier, seed):
     s.append(dict(name="E2 1+1 x 2 ops (exhaustive)", weak=0, pb=None, mode="dfs",
                   plans=sorted(set("set/%s" % p for p in e2)), exhaustive=True))
     # E3: two observers, one op each - exhaustive (a bystander sampling Ready()/Touch() next to an attach, ...)
-    e3 = ["i.r"] if not thorough else ["i.r", "i.p", "k.r", "e.p", "a.r", "m.z", "k.z", "g.i"]
+    e3 = ["i.r"] if not thorough else ["i.r", "i.p", "k.z", "m.z", "g.i"]
     s.append(dict(name="E3 1+2 x 1 op (exhaustive)", weak=0, pb=None, mode="dfs", maxexec=3000000,
                   plans=["set/%s" % p for p in e3], exhaustive=True))
     # B: two observers, up to two ops each - preemption-bounded DFS
-    nb = 60 if thorough else 22
+    nb = 36 if thorough else 22
     pl = ["set/i.p", "set/ip.p", "set/k.m", "set/a.p", "set/km.p"]
     while len(pl) < nb:
         f = rng.choice(FULFIL)
